@@ -38,8 +38,9 @@ def check(calc, shot, la, R, step, tr, time_step=0.0):
     Y = [r.height >> U.Foot for r in tr]
     M = [r.mach for r in tr]
     S = [y - x * math.tan(lar) for x, y in zip(X, Y)]
-    ups = [i for i in range(1, len(tr)) if S[i - 1] < 0 < S[i]]
-    downs = [i for i in range(1, len(tr)) if S[i - 1] > 0 > S[i]]
+    # "beyond the muzzle": a crossing counts when the point after it lies down-range of the muzzle (x > 0)
+    ups = [i for i in range(1, len(tr)) if S[i - 1] < 0 < S[i] and X[i] > 0]
+    downs = [i for i in range(1, len(tr)) if S[i - 1] > 0 > S[i] and X[i] > 0]
     ties = any(s == 0 for s in S[1:])
     start_tie = S[0] == 0
     machs = [i for i in range(1, len(tr)) if M[i - 1] > 1 > M[i]]
@@ -81,7 +82,7 @@ def check(calc, shot, la, R, step, tr, time_step=0.0):
 
     def near(r, i, kind):
         x = r.distance >> U.Foot
-        if not (X[i - 1] - 1e-9 <= x <= X[i] + 1e-9):
+        if not (min(X[i - 1], X[i]) - 1e-9 <= x <= max(X[i - 1], X[i]) + 1e-9):      # (a projectile blown back moves up-range)
             out.append(f'{kind} row at {x!r} ft does not lie in the crossing step [{X[i - 1]!r},{X[i]!r}]')
             return
         steplen = math.dist((X[i - 1], Y[i - 1]), (X[i], Y[i]))
@@ -127,6 +128,12 @@ def trace_cell(cell):
     w = pb.Weapon(U.Inch(sh), U.Inch(0))
     winds = [pb.Wind(U.MPH(25), U.Degree(20), U.Yard(150)), pb.Wind(U.MPH(25), U.Degree(200))] if opt.get('wind') else None
     shot = pb.Shot(w, pb.Ammo(dm, U.FPS(mv)), look_angle=U.Degree(la), winds=winds, cant_angle=U.Degree(opt.get('cant', 0.0)))
+    if opt.get('back'):
+        # the projectile ends up BEHIND the muzzle (lofted into a 60 mph head wind / fired at 100 deg): nothing that happens there is a crossing
+        # beyond the muzzle
+        shot = pb.Shot(w, pb.Ammo(dm, U.FPS(mv)), look_angle=U.Degree(la), relative_angle=U.Degree(87.0 if opt['back'] == 'blown' else 100.0),
+                       winds=[pb.Wind(U.MPH(60), U.Degree(180))] if opt['back'] == 'blown' else None)
+        calc = make_calc({'cMinimumVelocity': 0.0, 'cMinimumAltitude': -1e9, 'cMaximumDrop': -60.0})
     try:
         if bar == 'z100':
             calc.set_weapon_zero(shot, U.Yard(100))
@@ -285,6 +292,7 @@ def plan(tier):
     tr = [list(c) for c in itertools.product((2.0, 0.0, -1.0), ('z100', 'z300', 'along', 'below'), (0.0, 20.0, -20.0), (2750.0, 1150.0, 1000.0))]
     tr += [[sh, bar, la, mv, opt] for sh in (2.0, -1.0) for bar in ('z100', 'z300') for la in (0.0, 20.0) for mv in (2750.0, 1150.0)
            for opt in ({'wind': True}, {'time_step': 0.05}, {'wind': True, 'time_step': 0.003})]
+    tr += [[sh, 'along', la, 200.0, {'back': b}] for sh in (2.0, 0.0, -1.0) for la in (0.0, 20.0) for b in ('blown', 'reverse')]
     # canted rifles, also beyond 90 degrees (the muzzle is then on the other side of the sight line: above it for a positive sight height)
     tr += [[sh, bar, la, 2750.0, {'cant': c}] for sh in (2.0, -1.0) for bar in ('up10', 'below', 'along') for la in (0.0, 20.0) for c in (60.0, 120.0, 180.0)]
     n = 4 if tier == 'quick' else 5
